@@ -28,8 +28,8 @@ type simConn struct {
 	notify        chan struct{} // driver wake-up: the broker wrote or closed
 	skew          time.Duration
 	failNextWrite bool
-	stalled       bool          // the peer does not read: writes block until it does (or the write deadline passes)
-	unstall       chan struct{} // closed when the stall is lifted
+	stalled       bool // the peer does not read: writes block until it does (or the write deadline passes)
+	waiters       []*stallWaiter
 	resetAt       int64 // when the link went down because a write failed (-1: not that way)
 	// counters for oracles
 	writesAfterClose int
@@ -137,30 +137,66 @@ func (c *simConn) Write(p []byte) (int, error) {
 		}
 		return 0, errReset
 	}
-	for c.stalled && !c.closed && !c.reset {
-		// a full send buffer: the writer waits (a durable block inside the bubble)
-		ch, wdl := c.unstall, c.wdl
+	var me *stallWaiter
+	if c.stalled && !c.closed && !c.reset {
+		// a full send buffer: the writer waits (a durable block inside the bubble). Writers blocked
+		// on one connection are served strictly in the order in which they arrived once the peer
+		// reads again: each hands over to the next and waits until that one is through.
+		me = &stallWaiter{start: make(chan struct{}), done: make(chan struct{})}
+		c.waiters = append(c.waiters, me)
+		wdl := c.wdl
 		c.mu.Unlock()
-		var tm <-chan time.Time
+		timedOut := false
 		if !wdl.IsZero() {
 			d := time.Until(wdl)
 			if d <= 0 {
-				c.mu.Lock()
-				return 0, timeoutErr{}
-			}
-			t := time.NewTimer(d)
-			tm = t.C
-			select {
-			case <-ch:
-				t.Stop()
-			case <-tm:
-				c.mu.Lock()
-				return 0, timeoutErr{}
+				timedOut = true
+			} else {
+				t := time.NewTimer(d)
+				select {
+				case <-me.start:
+					t.Stop()
+				case <-t.C:
+					timedOut = true
+				}
 			}
 		} else {
-			<-ch
+			<-me.start
 		}
 		c.mu.Lock()
+		if timedOut {
+			select {
+			case <-me.start: // released at the very same instant: go on
+			default:
+				for i, x := range c.waiters {
+					if x == me {
+						c.waiters = append(c.waiters[:i], c.waiters[i+1:]...)
+					}
+				}
+				close(me.done)
+				return 0, timeoutErr{}
+			}
+		}
+		defer func() {
+			// hand over to the next blocked writer and let it finish before this Write returns
+			var next *stallWaiter
+			for i, x := range c.waiters {
+				if x == me {
+					c.waiters = append(c.waiters[:i], c.waiters[i+1:]...)
+					break
+				}
+			}
+			if len(c.waiters) > 0 && !c.stalled {
+				next = c.waiters[0]
+			}
+			close(me.done)
+			if next != nil {
+				close(next.start)
+				c.mu.Unlock()
+				<-next.done
+				c.mu.Lock()
+			}
+		}()
 	}
 	if c.closed {
 		return 0, errClosed
@@ -187,10 +223,7 @@ func (c *simConn) Close() error {
 		c.closed = true
 		c.closedAt = time.Since(c.start).Milliseconds()
 	}
-	if c.stalled {
-		c.stalled = false
-		close(c.unstall)
-	}
+	c.releaseLocked()
 	c.mu.Unlock()
 	c.poke()
 	c.tell()
@@ -248,10 +281,7 @@ func (c *simConn) clientClose() {
 func (c *simConn) cut() {
 	c.mu.Lock()
 	c.reset = true
-	if c.stalled {
-		c.stalled = false
-		close(c.unstall)
-	}
+	c.releaseLocked()
 	c.mu.Unlock()
 	c.poke()
 }
@@ -274,21 +304,27 @@ func (c *simConn) linkDown() bool {
 }
 
 // stall: the peer stops reading until release() (slow or stalled node).
+type stallWaiter struct{ start, done chan struct{} }
+
 func (c *simConn) stall() {
 	c.mu.Lock()
-	if !c.stalled {
-		c.stalled = true
-		c.unstall = make(chan struct{})
-	}
+	c.stalled = true
 	c.mu.Unlock()
+}
+
+// releaseLocked lets the first blocked writer go (it passes the turn on). Caller holds c.mu.
+func (c *simConn) releaseLocked() {
+	if c.stalled {
+		c.stalled = false
+		if len(c.waiters) > 0 {
+			close(c.waiters[0].start)
+		}
+	}
 }
 
 func (c *simConn) release() {
 	c.mu.Lock()
-	if c.stalled {
-		c.stalled = false
-		close(c.unstall)
-	}
+	c.releaseLocked()
 	c.mu.Unlock()
 }
 
